@@ -49,7 +49,7 @@ var (
 	syncPaths       = []string{"/srv/x", "~/x", "rel", "/", "~"}
 	endpoints       = []string{"tcp:localhost:8080", "unix:/run/s.sock", "tcp::80"}
 	ports           = []string{"", "", "22", "2222", "0", "65535", "-1", "65536"}
-	parameterValues = []string{"tcp://h:1", "ctx", "/cfg", "-x", "--", "--tls", "-H"}
+	parameterValues = []string{"tcp://h:1", "ctx", "/cfg", "-x", "--", "--tls", "-H", "=x"}
 	opSets          = [][]string{{"command"}, {"copy"}, {"dial"}, {"command", "copy"}, {"copy", "command"}, {"dial", "copy"}, {"command", "copy", "dial"}}
 )
 
